@@ -17,11 +17,11 @@ def search(ctx):
 
 def run(ctx) -> int:
     proof = common.proof_stage(ctx.pid)
-    drv.d1(ctx, WHICH, 20000 if ctx.thorough else 1500, NT)
-    done = drv.d2_trees(ctx, WHICH, NT, 4000 if ctx.thorough else 120)
+    drv.d1(ctx, WHICH, 20000 if ctx.thorough else 5000, NT)
+    done = drv.d2_trees(ctx, WHICH, NT, 4000 if ctx.thorough else 300)
     if done:
         ctx.exhaustive.append("every verdict sequence of the removal strategies on the SMALL inputs (complete verdict trees)")
-    drv.d2_random(ctx, WHICH, NT, 3000 if ctx.thorough else 350, aborts=False)
+    drv.d2_random(ctx, WHICH, NT, 3000 if ctx.thorough else 900, aborts=False)
     return common.decide(ctx, proof, RULE, search=search,
                          assumptions=["candidate construction of the two rewriting strategies is not modelled: for them 'a rejected candidate never becomes the basis of later candidates' is the iterator-level theorem C01_best_is_last_accepted plus the monitor"])
 
